@@ -23,7 +23,7 @@ def doc_query(prop, mode, n, D, root, checks="func", arch=None, timeout=900, tag
     tags.update(tagx or {})
     return Query(name, "h_doc.c", defines={"NB": n, "DEPTH": D, "ROOT": root, "MODE": mode,
                                             "WIT_VALID": 1 if valid_exists(root, n) else 0},
-                 sources=("parser",), unwindset=uw, unwind=max(n + 3, 10), checks=checks, arch=arch,
+                 sources=("parser",), unwindset=uw, unwind=max(n + 3, D + 2, 10), checks=checks, arch=arch,
                  timeout=timeout, mem_gb=1.0 + 0.25 * n, tags=tags, witness=witness)
 
 
@@ -65,7 +65,7 @@ def step_query(propset, fn, n, D, checks="mem", timeout=1200, arch=None, extra=N
     defs.update(extra or {})
     copies = max(FN_COST[fn], 1) * (3 if lookup else 1)
     srcs = ("parser", "writer") if fn == 12 else ("parser",)
-    return Query(name, "h_step.c", defines=defs, sources=srcs, unwindset=uw, unwind=max(n + 3, 10), checks=checks,
+    return Query(name, "h_step.c", defines=defs, sources=srcs, unwindset=uw, unwind=max(n + 3, D + 2, 10), checks=checks,
                  arch=arch, timeout=timeout, mem_gb=1.0 + 0.3 * n * copies * (1 if FN_COST[fn] else 0.1),
                  tags={"n": n, "D": D, "fn": FN_NAMES[fn], "family": "H-BASE" if fn == 0 else "H-STEP", "inductive": fn != 0},
                  witness=witness, group="h_step.%s" % FN_NAMES[fn])
@@ -1358,7 +1358,7 @@ def plan_C02_full(tier):
         m = [1, 1] + [0] * (w + 4) + [1]
         q = doc_query("C02", 1, n, 1, 2, timeout=1800)
         q.defines.update({"SK_LEN": n, "SK_BYTES": ",".join(str(x) for x in b), "SK_MASK": ",".join(str(x) for x in m),
-                          "WIT_VALID": 1 if w < 4 else 0})
+                          "WIT_VALID": 1 if w < 2 else 0})
         q.name = "lenfield.0x%02x" % base
         q.array_fs = True
         q.tags.update({"family": "H-TOKEN", "what": "length field of %d symbolic bytes + 4 symbolic trailing bytes" % w})
